@@ -1,30 +1,46 @@
-"""seeds lean/DcmVerif/Props/SourceMeta.lean and SourceStack.lean from Proofs/CodeMeta.lean / CodeStack.lean
+"""seeds lean/DcmVerif/Props/Source_<group>.lean from Proofs/Code_<group>.lean
 (statements copied, proofs by reference)"""
 import sys, os, importlib
 sys.path.insert(0, os.path.dirname(__file__))
 GROUPS = {
- 'Meta': ('CodeMeta', 'codeMissingMeta', 'dcmmeta.py',
-          [('get_valid_classes_is_model', 'get_valid_classes_eq'), ('get_valid_classes_refuses', 'get_valid_classes_refuses'),
-           ('get_multiplicity_is_model', 'get_multiplicity_eq'), ('get_meta_index_is_model', 'get_meta_index_eq'),
-           ('is_constant_is_model', 'is_constant_eq'), ('is_repeating_is_model', 'is_repeating_eq'),
-           ('get_const_period_is_model', 'get_const_period_eq'), ('meta_valid_is_model', 'meta_valid_eq'), ('check_valid_is_model', 'check_valid_eq'), ('subset_shape_is_model', 'subset_shape_eq'), ('merge_shape_is_model', 'merge_shape_eq')]),
- 'Stack': ('CodeStack', 'codeMissingStack', 'dcmstack.py',
-           [('file_idx_is_model', 'file_idx_eq'), ('file_idx_volume_is_model', 'file_idx_volume_eq'),
-            ('get_shape_counts_is_model', 'get_shape_counts_eq'), ('accept_is_counts_and_order', 'acceptB_counts'),
-            ('get_data_trim_is_model', 'get_data_trim_eq'), ('chk_order_check_is_cellwise', 'chk_order_check_eq'), ('cells_are_model_blocks', 'cells_eq_chunks'), ('get_shape_accepts_iff_model', 'source_accepts_iff')]),
+ 'classes': ('dcmmeta.py: get_valid_classes, get_multiplicity',
+   [('get_valid_classes_is_model', 'get_valid_classes_eq'), ('get_valid_classes_refuses', 'get_valid_classes_refuses'),
+    ('get_multiplicity_is_model', 'get_multiplicity_eq')]),
+ 'simplify': ('dcmmeta.py: _get_const_period, is_constant, is_repeating',
+   [('is_constant_is_model', 'is_constant_eq'), ('is_repeating_is_model', 'is_repeating_eq'),
+    ('get_const_period_is_model', 'get_const_period_eq')]),
+ 'lookup': ('dcmmeta.py: NiftiWrapper.meta_valid, get_meta index arithmetic',
+   [('get_meta_index_is_model', 'get_meta_index_eq'), ('meta_valid_is_model', 'meta_valid_eq')]),
+ 'valid': ('dcmmeta.py: DcmMetaExtension.check_valid', [('check_valid_is_model', 'check_valid_eq')]),
+ 'shapes': ('dcmmeta.py: result shapes of get_subset / from_sequence',
+   [('subset_shape_is_model', 'subset_shape_eq'), ('merge_shape_is_model', 'merge_shape_eq')]),
+ 'wrapsplit': ('dcmmeta.py: NiftiWrapper.split index expressions',
+   [('split_specs_is_model', 'split_specs_eq'), ('split_trim_is_model', 'split_trim_eq')]),
+ 'wrapmerge': ('dcmmeta.py: NiftiWrapper.from_sequence index expressions',
+   [('wrap_merge_shape_is_model', 'wrap_merge_shape_eq'), ('fill_specs_is_model', 'fill_specs_eq')]),
+ 'stack': ('dcmstack.py: DicomStack.get_shape / _chk_order',
+   [('get_shape_counts_is_model', 'get_shape_counts_eq'), ('accept_is_counts_and_order', 'acceptB_counts'),
+    ('chk_order_check_is_cellwise', 'chk_order_check_eq'), ('cells_are_model_blocks', 'cells_eq_chunks'),
+    ('get_shape_accepts_iff_model', 'source_accepts_iff')]),
+ 'data': ('dcmstack.py: DicomStack.get_data',
+   [('file_idx_is_model', 'file_idx_eq'), ('file_idx_volume_is_model', 'file_idx_volume_eq'),
+    ('get_data_trim_is_model', 'get_data_trim_eq')]),
 }
-for grp, (mod, missing, srcfile, pairs) in GROUPS.items():
+OPENS = {'stack': 'Src Stk', 'data': 'Src Stk Wrap', 'wrapsplit': 'Src Wrap', 'wrapmerge': 'Src Wrap'}
+for grp, (srcfile, pairs) in GROUPS.items():
+    mod = 'Code_' + grp
     sys.argv = ['x', 'C00', '/verif/lean/DcmVerif/Proofs/%s.lean' % mod, 'Src.', 'DcmVerif.Proofs.%s' % mod]
     import gen_props as G
     importlib.reload(G)
     out = ("import DcmVerif.Proofs.%s\n/-! The tie by proof (%s): functions translated from the Python source on every run\n"
-           "(`tools/gen_code.py` → `Generated/Code.lean`) are the model functions the property theorems speak about.\n"
-           "Statements only; proofs are by reference to `Proofs/%s.lean`. -/\n"
-           "set_option autoImplicit false\nset_option linter.unusedVariables false\nopen Cls\n\nnamespace Source\nvariable {α κ : Type}\nopen Src Stk\n\n"
-           % (mod, srcfile, mod))
+           "(`tools/gen_code.py` → `Generated/%s.lean`) are the model functions the property theorems speak about.\n"
+           "Statements only; proofs are by reference to `Proofs/%s.lean`. One file per function group, so that an edit\n"
+           "of one function only unsettles the properties that depend on it. -/\n"
+           "set_option autoImplicit false\nset_option linter.unusedVariables false\nopen Cls\n\nnamespace Source\nvariable {α κ : Type}\nopen %s\n\n"
+           % (mod, srcfile, mod, mod, OPENS.get(grp, "Src")))
     for new, orig in pairs:
         out += G.emit(new, orig) + "\n"
-    out += ("/-- the translator translated every function of %s it is asked for -/\ntheorem translator_complete_%s : Gen.%s = [] := rfl\n\nend Source\n"
-            % (srcfile, grp.lower(), missing))
-    open('/verif/lean/DcmVerif/Props/Source%s.lean' % grp, 'w').write(out)
+    out += ("/-- the translator translated every function of this group (%s) -/\ntheorem translator_complete_%s : Gen.codeMissing_%s = [] := rfl\n\nend Source\n"
+            % (srcfile, grp, grp))
+    open('/verif/lean/DcmVerif/Props/Source_%s.lean' % grp, 'w').write(out)
     print(grp, len(pairs) + 1, 'theorems')
